@@ -80,7 +80,10 @@ def run(ctx, chk):
                            "mistaken for a complete item)")
     chk.rule("C10.nedata-wrap", "the byte count asked for cannot wrap")
     import decoder_rules as DR_
-    DR_.per_byte(chk, "C10", prog, eff, {"nedata", "nedata-wrap"}, by_byte=by_byte)
+    chk.rule("C10.status", "per initial byte the decoder's status is the reference's and does not depend on the decoded VALUE (no head the "
+                           "encoder can write - e.g. one particular tag number - is treated specially)")
+    chk.rule("C10.action", "per initial byte: callback kind, argument width / loader / bias agree with the reference")
+    DR_.per_byte(chk, "C10", prog, eff, {"nedata", "nedata-wrap", "status", "action"}, by_byte=by_byte)
     nm = mirror(chk, "C10.mirror", "C10.simple", prog, eff, encs, by_byte, enumv, loader_ext)
     chk.floor("C10.mirror", "encoder byte -> decoder arm links", nm, 200)
     chk.exhaustive = True
